@@ -213,7 +213,9 @@ protected:
 		}
 
 		using GetEvent = typename SelectGetEvent<Policies_, EventType_, HasFunctionGetEvent<Policies_, T &&, Args...>::value>::Type;
-		const auto e = GetEvent::getEvent(std::forward<T>(first), args...);
+		// `first` is also the first argument of the listeners: it must not be forwarded into getEvent,
+		// a getEvent taking its parameter by value (or returning it by implicit move) would move it away.
+		const Event e = GetEvent::getEvent(first, args...);
 		const CallbackList_ * callableList = doFindCallableList(e);
 		if(callableList) {
 			(*callableList)(std::forward<T>(first), std::forward<Args>(args)...);
